@@ -161,7 +161,7 @@ pub fn zoo_echo_api() -> ApiDescription<ZooCtx> {
         Scalars, Options, Inner, Seqs, Maps, Nested, Deeper, Recursive, UnitEnum, RenamedUnit, DocUnit, External, Internal, Adjacent,
         Untagged, Strict, Renamed, WithDefaults, Ranges, Lengths, Patterns, Documented, Formats, Tuples, Newtype, Transparent,
         Flattened, UsesGeneric, DeprecatedStruct, HasDeprecated, WithExample, ReadWrite, ValueHolder, Bytes, MixedDoc,
-        BigInts, EnumHolder, Bounds2, Wrappers, LowerUnit, TaggedNewtype, AdjDoc, Defaults2, Lengths2, Ranges2, SetsAndTuples, AllOptional, StrictRenamed, UntaggedNamed, RefHolder, SchemaOnlyStrict, Titled, Chars, Nums, Overlap, NumOverlap, OverlapHolder,
+        BigInts, EnumHolder, Bounds2, Wrappers, LowerUnit, TaggedNewtype, Defaults2, Lengths2, Ranges2, SetsAndTuples, AllOptional, StrictRenamed, UntaggedNamed, SchemaOnlyStrict, Titled, Chars, Nums, Overlap, NumOverlap, OverlapHolder,
         u8, i64, f64, bool, String, char, Vec<u32>, Vec<Inner>, Option<Inner>, Option<u16>, std::collections::BTreeMap<String, Inner>,
         Vec<Option<UnitEnum>>, Generic<Option<Inner>>, Box<Recursive>, [Inner; 2], uuid::Uuid, chrono::DateTime<chrono::Utc>,
         std::collections::BTreeSet<u8>, Option<Vec<External>>, std::collections::BTreeMap<String, Vec<Adjacent>>,
